@@ -314,8 +314,17 @@ GateOf(rpc, r) ==
 (* v1-era contracts (rhp/v2, rhp/v3): consensus tax after the tax hardfork *)
 SiafundCount == 10000
 TaxV1(payout) == MulSmall(DivSmall(DivSmall(MulSmall(payout, 39), 1000), SiafundCount), SiafundCount)
+\* before the tax hardfork (consensus/state.go FileContractTax, first branch): the payout times the
+\* float64 nearest to 0.039 taken as an exact fraction (5620492334958379 / 2^57), rounded down;
+\* 2^57 = Base^3 x 4096
+TaxRatePreNum == <<1835, 12845, 24379, 159>>
+DropLimbs(x, n) == IF Len(x) <= n THEN <<>> ELSE SubSeq(x, n + 1, Len(x))
+TaxV1Pre(payout) == MulSmall(DivSmall(DivSmall(DropLimbs(Mul(payout, TaxRatePreNum), 3), 4096), SiafundCount), SiafundCount)
 \* validateFileContracts
 ConsensusValidV1Payout(payout, validSum, missedSum) ==
   /\ validSum = missedSum
   /\ payout = Add(validSum, TaxV1(payout))
+ConsensusValidV1PayoutPre(payout, validSum, missedSum) ==
+  /\ validSum = missedSum
+  /\ payout = Add(validSum, TaxV1Pre(payout))
 =============================================================================
